@@ -471,6 +471,12 @@ func (sc *c16CKKS) runRefresh(d *c16Deploy, ct *rlwe.Ciphertext, m []*bignum.Com
 			}
 		}
 		tf = &mpckks.MaskedLinearTransformationFunc{Decode: true, Encode: true, Func: f}
+		if kind == 0 && ch.Bool("transform-no-decode") {
+			// a real scalar acts alike on slots and on coefficients: the transform may skip decoding and encoding
+			tf.Decode, tf.Encode = false, false
+			ctx.Count("probe.transform-without-decode-encode", 1)
+			desc += " (no decode/encode)"
+		}
 		f(want)
 	}
 	// the transform works on masks of logBound bits: its arithmetic precision must exceed that
